@@ -96,11 +96,12 @@ class Interp:
         self.repo = repo
         self.mi = repo.module(modname)
         self.clsname = clsname
-        self.cls_node = next(n for n in self.mi.tree.body if isinstance(n, ast.ClassDef) and n.name == clsname)
-        init = next((n for n in self.cls_node.body if isinstance(n, ast.FunctionDef) and n.name == "__init__"), None)
-        if init is None:
-            raise Undecided(f"{clsname}.__init__ not found")
-        self.ctor_params = [a.arg for a in init.args.args[1:]]
+        self.cls_node = next((n for n in self.mi.tree.body if isinstance(n, ast.ClassDef) and n.name == clsname), None) if clsname else None
+        if clsname and self.cls_node is None:
+            raise Undecided(f"class {clsname} not found in {modname}")
+        init = next((n for n in self.cls_node.body if isinstance(n, ast.FunctionDef) and n.name == "__init__"), None) if self.cls_node is not None else None
+        # (a dataclass has no written constructor: construction of such a class is undecided, everything else works)
+        self.ctor_params = [a.arg for a in init.args.args[1:]] if init is not None else None
         self.steps = 0
         self.depth = 0
         self.mutated: List[str] = []  # names of input containers mutated in place
@@ -127,7 +128,7 @@ class Interp:
 
     # ---- helpers ------------------------------------------------------------------------------------------------------------
     def method(self, name):
-        for n in self.cls_node.body:
+        for n in (self.cls_node.body if self.cls_node is not None else ()):
             if isinstance(n, ast.FunctionDef) and n.name == name:
                 return n
         return None
@@ -136,6 +137,24 @@ class Interp:
         for n in self.mi.tree.body:
             if isinstance(n, ast.FunctionDef) and n.name == name:
                 return n
+        return None
+
+    def imported_func(self, name):
+        """a function of another module of the package, imported by name: evaluated by an interpreter of that module"""
+        for n in self.mi.tree.body:
+            if isinstance(n, ast.ImportFrom) and n.module in self.repo.modules:
+                for a in n.names:
+                    if (a.asname or a.name) == name:
+                        key = "module:" + n.module
+                        ch = self.children.get(key)
+                        if ch is None:
+                            ch = Interp(self.repo, n.module, None)
+                            ch.intercept, ch.inputs, ch.mutated = self.intercept, self.inputs, self.mutated
+                            self.children[key] = ch
+                        fn = ch.module_func(a.name)
+                        if fn is not None:
+                            return Closure(fn, {}, interp=ch)
+                        return ch.imported_func(a.name)
         return None
 
     def module_const(self, name, mi=None, depth=0):
@@ -156,7 +175,7 @@ class Interp:
         return _MISSING
 
     def class_const(self, name):
-        for n in self.cls_node.body:
+        for n in (self.cls_node.body if self.cls_node is not None else ()):
             if isinstance(n, ast.Assign) and len(n.targets) == 1 and isinstance(n.targets[0], ast.Name) and n.targets[0].id == name:
                 return self.eval(n.value, {})
             if isinstance(n, ast.AnnAssign) and isinstance(n.target, ast.Name) and n.target.id == name and n.value is not None:
@@ -225,6 +244,8 @@ class Interp:
             self.depth -= 1
 
     def construct(self, args, kwargs):
+        if self.ctor_params is None:
+            raise Undecided(f"construction of {self.clsname} (no written __init__)")
         slots = {}
         if len(args) > len(self.ctor_params):
             raise Raised("TypeError: too many constructor arguments")
@@ -378,6 +399,9 @@ class Interp:
             fn = self.module_func(e.id)
             if fn is not None:
                 return Closure(fn, {})
+            imp = self.imported_func(e.id)
+            if imp is not None:
+                return imp
             c = self.module_const(e.id)
             if c is not _MISSING:
                 return c
